@@ -78,8 +78,8 @@ ErrorClasses == {"Error", "RuntimeError", "AttributeError", "IndexError", "Impor
 (* a completion: kind, value, and - for exceptions - where it was raised (line, function), which
    is what the error trace of an uncaught exception reports for the innermost frame as long as
    that frame still belongs to the raising function *)
-NormalC == [c |-> "normal", v |-> Nil, ol |-> 0, of |-> -1]
-Comp(c, v) == [c |-> c, v |-> v, ol |-> 0, of |-> -1]
+NormalC == [c |-> "normal", v |-> Nil, ol |-> 0, of |-> -1, od |-> 0]
+Comp(c, v) == [c |-> c, v |-> v, ol |-> 0, of |-> -1, od |-> 0]
 
 Ctl(c, at, envLen) == [c |-> c, at |-> at, envLen |-> envLen, ph |-> "body", pend |-> NormalC, it |-> Nil, vsLen |-> 0]
 
@@ -251,7 +251,9 @@ FnId(m, fr) == IF fr.clo = 0 THEN -1000000 - fr.seg ELSE m.store[fr.clo].at
 Uncaught(m, c, frames) ==
     LET info == KindOfThrown(m, c.v)
         n == Len(frames)
-        fs == IF n > 0 /\ FnId(m, frames[n]) = c.of THEN [frames EXCEPT ![n].line = c.ol] ELSE frames
+        \* the raise location describes the ACTIVATION the exception was raised in (od = its depth in the fiber): once unwinding has
+        \* discarded that frame it describes none of the remaining ones - not even another activation of the same function
+        fs == IF n > 0 /\ n = c.od /\ FnId(m, frames[n]) = c.of THEN [frames EXCEPT ![n].line = c.ol] ELSE frames
     IN Finish([m EXCEPT !.fibers[m.cur].frames = <<>>, !.fibers[m.cur].st = "run"],
               FALSE, info.kind, <<"Unhandled " \o info.desc \o ": " \o Text(m, info.ctx)>> \o TraceLines(m, fs, n))
 
@@ -338,7 +340,7 @@ Deliver(m, c, fi, orig) ==
               IN Deliver([m EXCEPT !.fibers[m.cur].frames[fi] = inner, !.trig = m.trig \cup t1 \cup t2 \cup t3], c, fi, orig)
 
 DeliverHere(m, c) == Deliver(m, c, NFrames(m), CurFiber(m).frames)
-Raise(m, v) == Deliver(m, [Comp("throw", v) EXCEPT !.ol = CurFrame(m).line, !.of = FnId(m, CurFrame(m))],
+Raise(m, v) == Deliver(m, [Comp("throw", v) EXCEPT !.ol = CurFrame(m).line, !.of = FnId(m, CurFrame(m)), !.od = NFrames(m)],
                        NFrames(m), CurFiber(m).frames)
 RaiseErr(m, e) ==
     IF e.kind = "OutOfModel" THEN [Finish(m, FALSE, "OutOfModel", <<>>) EXCEPT !.oom = TRUE]
